@@ -108,3 +108,31 @@ Proof.
     + rewrite (proj2 (nth_error_None h j)) by lia.
       apply nth_error_None. rewrite app_length; simpl; lia.
 Qed.
+
+(* apply f to cell i (no-op outside the heap) *)
+Fixpoint map_nth {C} (f : C -> C) (i : nat) (h : list C) : list C :=
+  match h, i with
+  | [], _ => []
+  | x :: t, O => f x :: t
+  | x :: t, S i' => x :: map_nth f i' t
+  end.
+
+Lemma length_map_nth {C} (f : C -> C) i h : length (map_nth f i h) = length h.
+Proof. revert i; induction h as [|x t IH]; intros [|i]; simpl; auto. Qed.
+
+Lemma nth_error_map_nth {C} (f : C -> C) i h j :
+  nth_error (map_nth f i h) j =
+  if Nat.eqb j i then option_map f (nth_error h i) else nth_error h j.
+Proof.
+  revert i j; induction h as [|x t IH]; intros [|i] [|j]; simpl; auto.
+  destruct (Nat.eqb j i); reflexivity.
+Qed.
+
+Lemma replace_nth_map_nth {C} (f : C -> C) i h c :
+  nth_error h i = Some c -> replace_nth i (f c) h = map_nth f i h.
+Proof.
+  revert i; induction h as [|x t IH]; intros [|i] H; simpl in *; try discriminate.
+  - congruence.
+  - f_equal; auto.
+Qed.
+
